@@ -324,6 +324,146 @@ func GenHistShape(rng *rand.Rand, parents [][]int, o GenOpts) *Hist {
 	return g.h
 }
 
+// OctoOpts steers GenOctopusShape: histories made of octopus merges whose parent branches have been idle for
+// different lengths.  In the run plan every parent branch replays the merge commit right before the merge
+// action, so with hibernation distance d an octopus of at least d+3 parents makes insertHibernateBoot emit ONE
+// boot action that covers several branches; arms of different lengths, several roots and chains after the
+// merge vary the state those branches are in.
+type OctoOpts struct {
+	Roots     int // 1..3 root commits; the extra roots start arms of an octopus (default 1)
+	Merges    int // number of octopus sections (default 1)
+	MinPar    int // parents of an octopus merge: MinPar..MaxPar (defaults 3..7)
+	MaxPar    int
+	MaxArm    int  // every arm is a chain of 1..MaxArm commits, drawn independently (default 4)
+	MaxTail   int  // chain of 0..MaxTail commits after each merge (default 3)
+	ExtraHead bool // sometimes leave an additional arm unmerged (several heads)
+	SubMerge  bool // sometimes put an ordinary two-parent merge inside an arm
+}
+
+func (o *OctoOpts) defaults() {
+	if o.Roots < 1 {
+		o.Roots = 1
+	}
+	if o.Merges < 1 {
+		o.Merges = 1
+	}
+	if o.MinPar < 2 {
+		o.MinPar = 3
+	}
+	if o.MaxPar < o.MinPar {
+		o.MaxPar = 7
+		if o.MaxPar < o.MinPar {
+			o.MaxPar = o.MinPar
+		}
+	}
+	if o.MaxArm < 1 {
+		o.MaxArm = 4
+	}
+	if o.MaxTail < 0 {
+		o.MaxTail = 0
+	} else if o.MaxTail == 0 {
+		o.MaxTail = 3
+	}
+}
+
+// GenOctopusShape draws a commit graph (parents[c] lists the parents of commit c, all smaller than c):
+// a short trunk, then o.Merges times: a fan of MinPar..MaxPar arms (chains of different lengths that start at
+// the current tip, at an earlier trunk commit or at a fresh root; their commits are interleaved in the
+// numbering), the octopus merge of the arm tips (parents in random order) and a chain after it.
+func GenOctopusShape(rng *rand.Rand, o OctoOpts) [][]int {
+	o.defaults()
+	parents := [][]int{{}}
+	add := func(ps ...int) int {
+		parents = append(parents, append([]int{}, ps...))
+		return len(parents) - 1
+	}
+	trunk := []int{0}
+	tip := 0
+	for i := rng.Intn(3); i > 0; i-- {
+		tip = add(tip)
+		trunk = append(trunk, tip)
+	}
+	rootsLeft := o.Roots - 1
+	for m := 0; m < o.Merges; m++ {
+		k := o.MinPar + rng.Intn(o.MaxPar-o.MinPar+1)
+		narms := k
+		dangling := o.ExtraHead && rng.Intn(3) == 0
+		if dangling {
+			narms++
+		}
+		// the arms: where each starts, how long it is
+		type arm struct {
+			base   int // -1: a fresh root
+			length int
+			tip    int
+			sub    bool
+		}
+		arms := make([]arm, narms)
+		for a := range arms {
+			arms[a].base = tip
+			if rootsLeft > 0 && rng.Intn(2) == 0 {
+				arms[a].base = -1
+				rootsLeft--
+			} else if rng.Intn(4) == 0 {
+				arms[a].base = trunk[rng.Intn(len(trunk))]
+			}
+			arms[a].length = 1 + rng.Intn(o.MaxArm)
+			arms[a].tip = arms[a].base
+			arms[a].sub = o.SubMerge && rng.Intn(5) == 0
+		}
+		// grow the arms one commit at a time in random interleaving
+		left := 0
+		for _, a := range arms {
+			left += a.length
+		}
+		for left > 0 {
+			a := rng.Intn(narms)
+			if arms[a].length == 0 {
+				continue
+			}
+			arms[a].length--
+			left--
+			switch {
+			case arms[a].tip < 0:
+				arms[a].tip = add()
+			case arms[a].sub && arms[a].tip != arms[a].base && arms[a].base >= 0:
+				// a two-parent merge of the arm with its own base (a side branch that merges the trunk in)
+				side := add(arms[a].base)
+				arms[a].tip = add(arms[a].tip, side)
+				arms[a].sub = false
+			default:
+				arms[a].tip = add(arms[a].tip)
+			}
+		}
+		var tips []int
+		for a := 0; a < k; a++ {
+			dup := false
+			for _, x := range tips {
+				if x == arms[a].tip {
+					dup = true
+				}
+			}
+			if !dup {
+				tips = append(tips, arms[a].tip)
+			}
+		}
+		rng.Shuffle(len(tips), func(i, j int) { tips[i], tips[j] = tips[j], tips[i] })
+		tip = add(tips...)
+		trunk = append(trunk, tip)
+		for i := rng.Intn(o.MaxTail + 1); i > 0; i-- {
+			tip = add(tip)
+			trunk = append(trunk, tip)
+		}
+	}
+	return parents
+}
+
+// GenOctopusHib draws a conflict-free history (ticks, authors, kills and insertions by the rules of GenHist)
+// over a GenOctopusShape commit graph.
+func GenOctopusHib(rng *rand.Rand, o GenOpts, oo OctoOpts) *Hist {
+	return GenHistShape(rng, GenOctopusShape(rng, oo), o)
+}
+
 // GenHist draws a random conflict-free history.
 func GenHist(rng *rand.Rand, o GenOpts) *Hist {
 	o.defaults()
